@@ -16,6 +16,12 @@ Second family (harness/c13walk.py; coq/Model/DepWalk.v, DepWalkText.v): NO fed e
 (stacks, declarations per flavor, chain files, the TEXT of every table file) and the request, resolves every line
 itself with the resolver of C03 and walks; compared with the real listing obtained the way eups list --dependencies
 obtains it.  See the docstring of c13walk.
+
+Third family (harness/c13seq.py; coq/Model/UsesSeq.v): sessions on ONE long-lived Eups instance - every listing and
+every uses query, a change of the database made through that instance (assignTag, unassignTag, declare of a new
+version, declare of a tag only, undeclare), every listing and query again, ... - and on a fresh instance at every step;
+each step compared with the model run on the world current at that step, and the oracle evaluated on the real answers
+of every step against the database read back from the files.  See the docstring of c13seq.
 """
 import json
 import os
@@ -24,6 +30,7 @@ import common
 import stackgen
 import c13walk
 import c13build
+import c13seq
 from common import enc
 
 # ------------------------------------------------------------------ implementation driver (in a child)
@@ -43,12 +50,26 @@ def impl_one(spec):
 
 
 def _impl_on_stack(spec):
+    e = stackgen.new_eups()
+    out = observe(e, spec["queries"])
+    # --- the consumers of the listing: the manifest of eups distrib and the command-line listing (c13build)
+    out.update(c13build.impl_extra(e, spec))
+    return out
+
+
+def observe(e, queries, roots=None, plain=(0,)):
+    """every listing and every uses query put to the instance e as it is now (harness/c13seq.py calls this several
+    times on one instance).  roots: the declared (name, version) to list when the instance cannot enumerate them
+    itself (Eups.findProducts reads the product cache only); plain: positions of the queries that are put through the
+    two-argument call Eups.uses(x, v) as well as through the index Eups.uses() returns"""
     eups = common.import_eups()
     from eups import utils
     from eups.table import Action
-    e = stackgen.new_eups()
     out = {"edges": {}, "list": {}, "topo": {}, "cyc": {}, "uses": {}, "captured": {}}
-    prods = sorted(e.findProducts(), key=lambda p: (p.name, p.version))
+    if roots is None:
+        prods = sorted(e.findProducts(), key=lambda p: (p.name, p.version))
+    else:
+        prods = [e.getProduct(n, v) for n, v in sorted(tuple(r) for r in roots)]
     out["declared"] = [[p.name, p.version, [str(t) for t in p.tags]] for p in prods]
 
     # --- what each table line denotes, asked of the real code
@@ -119,15 +140,14 @@ def _impl_on_stack(spec):
         utils.topologicalSort = real_topo
 
     # --- uses: the index once (Eups.uses()), then every query through Eups.uses(x, v, usesInfo=index);
-    #     the first query also through the plain two-argument call
+    #     the queries at the positions in plain (the first one) also through the plain two-argument call
     info = None
     try:
         info = e.uses()
         info_err = None
     except Exception as ex:  # noqa
         info_err = {"exc": type(ex).__name__, "msg": str(ex)[:200]}
-    first = True
-    for x, v in spec["queries"]:
+    for qi, (x, v) in enumerate(queries):
         k = "%s %s" % (x, v)
         if info_err is not None:
             out["uses"][k] = info_err
@@ -137,8 +157,7 @@ def _impl_on_stack(spec):
             val = {"ok": [[a, b, c.version, bool(c.optional), c.depth] for a, b, c in r]}
         except Exception as ex:  # noqa
             val = {"exc": type(ex).__name__, "msg": str(ex)[:200]}
-        if first:
-            first = False
+        if qi in plain:
             try:
                 r2 = e.uses(x, v)
                 val2 = {"ok": [[a, b, c.version, bool(c.optional), c.depth] for a, b, c in r2]}
@@ -147,8 +166,6 @@ def _impl_on_stack(spec):
             if val2 != val:
                 val = {"exc": "InconsistentUses", "msg": "uses(x,v) %r but with usesInfo %r" % (val2, val)}
         out["uses"][k] = val
-    # --- the consumers of the listing: the manifest of eups distrib and the command-line listing (c13build)
-    out.update(c13build.impl_extra(e, spec))
     return out
 
 
@@ -225,7 +242,11 @@ def dec_nodes(s, sep=","):
 
 
 def model_lines(spec, edges):
-    w = enc_world(spec, edges)
+    return model_lines_on(spec, enc_world(spec, edges))
+
+
+def model_lines_on(spec, w):
+    """the listing / layering / uses requests for every declared product of spec on the encoded world w"""
     lines, meta = [], []
     for p in sorted(spec["products"], key=lambda p: (p["name"], p["version"])):
         for topo in (False, True):
@@ -429,8 +450,8 @@ def canon_graph(g):
     return sorted((repr(k), sorted(repr(s) for s in ss)) for k, ss in g if k is not None)
 
 
-def compare_one(ctx, spec, impl, model, indep_edges_ok=True):
-    case = {"spec": spec}
+def compare_one(ctx, spec, impl, model, indep_edges_ok=True, case_extra=None):
+    case = dict(case_extra or {}, spec=spec)
     n_roots = len(spec["products"])
     shape = spec.get("shape", "?")
     if "child_error" in impl:
@@ -629,7 +650,22 @@ def setup_ctx(ctx):
                 "--topological, --topological --checkCycles, sometimes -e or -T build; one evaluation = one listing compared "
                 "with the model's as an exact ordered list of (name, version, found?, optional, depth); every look-up of the walk "
                 "(Eups.findProductFromVRO: request, preferred tags in force, product found with stack and flavor) compared with "
-                "the model's resolver (traces_validated); a sample of the requests also through eups.cmd.EupsCmd")
+                "the model's resolver (traces_validated); a sample of the requests also through eups.cmd.EupsCmd.  "
+                "Third family (keys session/...; harness/c13seq.py): sessions on ONE long-lived Eups instance - a stack (half of them "
+                "the directed family: a library in 2-3 versions with users through bare lines, pinned lines, both, two versions, and "
+                "users of users; half random graphs of the shapes above) and 1-4 changes made through the instance: assignTag / "
+                "unassignTag of current, declare of a new version (with and without a tag; a new product name), declare of a tag only, "
+                "undeclare, a few of them naming undeclared versions; before the first and after every change: every listing "
+                "(topological F/T, checkCycles) of every declared product, the index Eups.uses() and every uses query through it (two "
+                "of them also through Eups.uses(x, v)), what every table line denotes - asked of the long-lived instance AND of a fresh "
+                "instance in a forked process; three sessions in four through the product cache, one in four with readCache=False "
+                "(listings only).  Each step is compared with the model run on the world_after of the initial database and the changes "
+                "so far (no fed edges), the database is read back from the files and compared with the model's, and the oracle "
+                "(closure, order, cycles, uses = inverse of the listings) is evaluated on the real answers of every step against the "
+                "graph read back at that step; the whole session is also put to the extracted run_session (two uses queries or one "
+                "listing per step, interleaved with the changes) and its answers compared with the real ones; "
+                "session/<mode>/<change>/<effect> counts the changes by what they changed (db, "
+                "listings, users)")
     ctx.trusted_base = common.COMMON_TRUSTED + [
         "first family only: resolved edges are an input of the model: the harness asks the real code what each table line denotes "
         "(Action.processArgs + Eups.findProductFromVRO, as Table.dependencies does) and checks the answer against its own "
@@ -639,6 +675,9 @@ def setup_ctx(ctx):
         "version is not found again); DefaultDistrib.updateDependencies (table file, distribution id, install directory of every "
         "entry) is run and checked to have filled every entry, not modelled; the text format of eups list (name|version with "
         "--raw, the indented columns without) is parsed by the harness",
+        "sessions: the database of a step is read back with eups.db.VersionFile / ChainFile (the readers, not the Eups instance); "
+        "the table lines are the ones the generator wrote; the fresh instance runs in a forked process after the Database "
+        "singletons were cleared",
         "modelled, not verified: iteration order of python sets of Products (unobservable: components and layers are compared "
         "as sets), python list.sort stability, Product equality/hash with one flavor",
         "extra comparison, not a premise of any claim: the model's component partition of every tested graph is also run "
@@ -654,6 +693,10 @@ def setup_ctx(ctx):
         "recursive and exact are not consulted by the code on that path; eups list without -v (with -v every line is printed)",
         "the default product implicitProducts is not declared: every table ends with a silent optional dependency on it, "
         "which the model receives as an ordinary unresolved edge",
+        "sessions: one stack, one flavor, the tag current only; a version is declared once with one table (a repeated declare "
+        "names the same directory and table); with readCache=False Eups.uses answers nothing (it enumerates the products "
+        "through the cache) and every declare carries a tag (Eups.findProducts answers nothing, so declare would tag every "
+        "version current): there only the listings are compared",
         "second family: a (name, version) is declared under one flavor, and with one table text when it is declared in two "
         "stacks (the model keys tables by name and version); version names are dotted numbers; Eups built as cmd.createEups "
         "builds it for eups list (after selectVRO it is in exact mode: the shipped VRO starts with type:exact); counted as "
@@ -684,10 +727,12 @@ def run(ctx):
     # second family: the composed model (walk + resolver + table texts), no fed edges
     c13walk.run_family(ctx, ctx.size(70, 1500))
     c13walk.shrink_failures(ctx)
+    # third family: sessions query / change / query on one long-lived instance (and a fresh one at every step)
+    c13seq.run_family(ctx, ctx.size(60, 1500))
     # shrink the first unknown failure of each kind so that the replay is readable
     seen = set()
     for f in list(ctx.failures):
-        if ctx._known(f) or f["kind"] in seen or len(seen) >= 3 or "spec" not in f["input"]:
+        if ctx._known(f) or f["kind"] in seen or len(seen) >= 3 or "spec" not in f["input"] or "session" in f["input"]:
             continue
         seen.add(f["kind"])
         small = shrink(f["input"]["spec"], f["kind"], f["input"]["focus"])
@@ -711,7 +756,9 @@ def replay(ctx, path):
             print("  proof problem: %s %s" % (p.get("theorem"), p.get("what")))
         print("replay %s: %s" % (path, "passes" if ok else "still fails"))
         return 0 if ok else 1
-    if "flavor_spec" in inp:
+    if "session" in inp:
+        c13seq.run_sessions(ctx, [c13seq.prepare(inp["session"])], nproc=1)
+    elif "flavor_spec" in inp:
         c13build.run_flavor_specs(ctx, [inp["flavor_spec"]], enc_world=enc_world, dec_entries=dec_entries, dec_nodes=dec_nodes,
                                   ref_graph=ref_graph, reach_plus=reach_plus, nproc=1)
     elif "world" in inp:
